@@ -253,6 +253,10 @@ void body(const Json& prog, const std::string& root) {
             int id = (int)(op.get("node", 0) % (int64_t)g_nodes.size());
             std::string base = spelled(id, real_cwd(), (int)op.get("variant", 0) & 3);
             check_missing(g_nodes[id].dir ? base + "/no-such-entry" : base + ".missing");
+            if (!g_nodes[id].dir) {   // a regular file spelled with a trailing separator names nothing (ENOTDIR)
+                check_missing(base + "/");
+                check_missing(base + "/x");
+            }
         } else if (o == "visit" || o == "visit_default" || o == "visit_missing") {
             Frame f;
             f.before = real_cwd();
@@ -292,10 +296,13 @@ void body(const Json& prog, const std::string& root) {
             Path::setWorkingDirectory(Path(g_nodes[id2].abs));      // "elsewhere"
             if (real_cwd() != g_nodes[id2].abs) sim::violation("cwd-query", "Path::setWorkingDirectory did not change the working directory");
             f.before = g_nodes[id2].abs;
-            std::string target = spelled(id, f.before, (int)op.get("variant", 0));
+            bool to_missing = (op.get("node", 0) % 5) == 0;   // sometimes the second visit goes to a directory that does not exist
+            std::string target = to_missing ? spelled(id, f.before, (int)op.get("variant", 0) & 3) + "/no-such-dir" : spelled(id, f.before, (int)op.get("variant", 0));
             f.v->set(Path(target));
             f.v->visit();
-            if (real_cwd() != g_nodes[id].abs) sim::violation("cwd-not-entered", "re-used DirectoryVisitor did not enter " + printable(target));
+            if (to_missing) {
+                if (real_cwd() != f.before) sim::violation("cwd-not-restored", "re-used DirectoryVisitor on a missing directory changed the working directory");
+            } else if (real_cwd() != g_nodes[id].abs) sim::violation("cwd-not-entered", "re-used DirectoryVisitor did not enter " + printable(target));
             g_extra["visitors_reused"]++;
         }
     }
